@@ -11,7 +11,7 @@ PROPS_V = "theories/Props/C16.v"
 
 def run(ctx):
     common.app_check(ctx, "C16", PROPS_V if os.path.exists(os.path.join(V.COQ, PROPS_V)) else None, THEOREMS,
-                     codes=[11, 1], pred="P_C16", effect_codes=(21, 24),
+                     codes=[11, 1], pred="P_C16", effect_codes=(21, 24), profile="corpus noise judge",
                      extra_assume=["gas price < 2^192 and gas < 2^63 so that gas*price does not wrap",
                                    "contract transactions: gas used is go-ethereum's; the equation 'sender pays exactly gasUsed*price' is checked by the C17 reference-EVM differential"],
                      nontrivial_rule="per block and per watched account the predicate recomputes the balance from the trace: own fees (gas*price of successful transactions), transfers in and out, staking debits, withdrawals, refunds of matured stakes, and the block's fee sum for the proposer; gas price and minimum gas change through governance in the generated histories")
